@@ -442,9 +442,15 @@ package internal
 // through the captured variable visit, under its own contract.
 //@ macro TOPOK = forall(j, int, implies(0 <= j && j < len(topo), 0 <= topo[j] && topo[j] < g.Count))
 
+//@ macro VIS(K) = mhas("map[int]struct{}", visited, K)
+//@ macro COVER = forall(k, int, implies($VIS(k), exists(j, int, 0 <= j && j < len(topo) && topo[j] == k)))
+
 //@ func toposort$1
 //@   option props=[C13]
 //@   option self-freevar=visit
+//@   requires every-visited-node-is-in-the-order: $COVER
+//@   loop 1 invariant [C02,C10] every-visited-node-is-in-the-order: $COVER && forall(k, int, implies(old($VIS(k)), $VIS(k)))
+//@   ensures [C02,C10] the-node-is-visited-and-every-visited-node-is-in-the-order: $COVER && $VIS(n) && forall(k, int, implies(old($VIS(k)), $VIS(k)))
 //@   requires node-index: 0 <= n && n < g.Count && visited != nil
 //@   requires entries-so-far-are-node-indices: $TOPOK
 //@   at call Dependencies 1 assume rely-graph-dependencies-are-node-indices: forall(j, int, implies(0 <= j && j < len(ret), 0 <= ret[j] && ret[j] < g.Count))
@@ -455,6 +461,8 @@ package internal
 //@   option props=[C13]
 //@   requires node-count-non-negative: g.Count >= 0
 //@   loop 1 invariant [C01,C13] entries-so-far-are-node-indices: 0 <= n && $TOPOK
+//@   loop 1 invariant [C02,C10] nodes-so-far-are-in-the-order: visited != nil && $COVER && forall(k, int, implies(0 <= k && k < n, $VIS(k)))
+//@   ensures [C02,C10] every-node-is-in-the-order: forall(k, int, implies(0 <= k && k < g.Count, exists(j, int, 0 <= j && j < len(result) && result[j] == k)))
 //@   ensures [C01,C13] result-holds-node-indices: forall(j, int, implies(0 <= j && j < len(result), 0 <= result[j] && result[j] < g.Count))
 
 //@ macro DEPK = f.Funcs[funcIdx].Dependencies[k]
